@@ -181,18 +181,22 @@ def canon_tree(t):
 
 
 def full_tree(r):
-    """Projected real tree with leaf metadata (what TLC needs to judge it)."""
-    t = project.tree(r)
-    leaves = {}
+    """Projected real tree with leaf metadata (what TLC needs to judge it).
+    Leaves are identified by name; distinct leaf objects sharing a name get
+    `name@engine`."""
+    objs = {}
 
     def collect(x):
         from lsst.daf.relation import BinaryOperationRelation, LeafRelation, MarkerRelation, UnaryOperationRelation
+        from lsst.daf.relation import _operations as _ops
 
         match x:
             case LeafRelation():
-                leaves[x.name] = x
-            case UnaryOperationRelation(target=target):
+                objs[id(x)] = x
+            case UnaryOperationRelation(operation=operation, target=target):
                 collect(target)
+                if isinstance(operation, _ops.PartialJoin):
+                    collect(operation.fixed)
             case BinaryOperationRelation(lhs=lhs, rhs=rhs):
                 collect(lhs)
                 collect(rhs)
@@ -202,6 +206,15 @@ def full_tree(r):
                     collect(x.skip_to)
 
     collect(r)
+    by_name: dict = {}
+    for o in objs.values():
+        by_name.setdefault(o.name, []).append(o)
+    names = {}
+    for nm, group in by_name.items():
+        for o in group:
+            names[id(o)] = nm if len(group) == 1 else f"{nm}@{o.engine.name}"
+    leaves = {names[i]: o for i, o in objs.items()}
+    t = project.tree(r, names)
 
     def enrich(x):
         if isinstance(x, dict):
